@@ -174,9 +174,19 @@ impl EncodingBuilder {
             }
 
             // Convert to page entry
+            // key_count is one byte in the page; a count that does not fit would
+            // be stored modulo 256 (256 keys become 0x00, the padding marker)
+            let key_count = u8::try_from(entry_data.encoding_keys.len()).map_err(|_| {
+                EncodingError::Io(std::io::Error::new(
+                    std::io::ErrorKind::InvalidInput,
+                    format!(
+                        "CKey entry has {} encoding keys, key count field holds at most 255",
+                        entry_data.encoding_keys.len()
+                    ),
+                ))
+            })?;
             let page_entry = CKeyPageEntry {
-                #[allow(clippy::cast_possible_truncation)]
-                key_count: entry_data.encoding_keys.len() as u8,
+                key_count,
                 file_size: entry_data.file_size,
                 content_key: entry_data.content_key,
                 encoding_keys: entry_data.encoding_keys.clone(),
